@@ -83,6 +83,7 @@ def run(ctx):
     ck.rule("R28c", "Python _atom_from_stream rejects exactly what decode_size_with_offset rejects (prefix-length cap, size cap, truncation)")
     ck.rule("R28d", "wire constants duplicated in Python equal the Rust constants")
     ck.rule("R28e", "int_to_bytes/int_from_bytes: big-endian signed, 0 <-> empty")
+    ck.rule("R28f", "uncurry checks and takes apart exactly the shape curry builds, level by level")
     ser = PyMod(ctx.read(SER), SER)
     casts = PyMod(ctx.read(CASTS), CASTS)
     ck.analysed("py:" + SER, "py:" + CASTS)
@@ -267,3 +268,83 @@ def run(ctx):
     ck.ob("R28e", f"{CASTS}::int_to_bytes|minimal", ok_strip,
           "redundant leading 0x00/0xff bytes are stripped while the sign bit of the next byte allows it (minimal encoding)",
           site=f"{CASTS}:{fn.lineno}", detail=strip_loop)
+
+
+    # ---------------------------------------------------------------- R28f: curry / uncurry agreement
+    CURRY = "wheel/python/clvm_rs/curry_and_treehash.py"
+    ctree = ast.parse(ctx.read(CURRY))
+    cfns = {}
+    for n in ast.walk(ctree):
+        if isinstance(n, ast.FunctionDef) and n.name in ("curry", "uncurry"):
+            cfns[n.name] = n
+    if set(cfns) != {"curry", "uncurry"}:
+        raise mir.AnchorMissing(f"{CURRY}: curry / uncurry not found")
+    cur, unc = cfns["curry"], cfns["uncurry"]
+
+    def kw(e):
+        """dialect.X_KW / self.dialect.X_KW -> 'X_KW'"""
+        return e.attr if isinstance(e, ast.Attribute) else (repr(e.value) if isinstance(e, ast.Constant) else ast.unparse(e))
+
+    def shape(lst):
+        """{path: keyword} and {path: 'VAR:<name>'} of a list literal [K, (K2, x), rest]: a proper list of three"""
+        out = {}
+        if not (isinstance(lst, ast.List) and len(lst.elts) == 3):
+            return None
+        out["f"] = kw(lst.elts[0])
+        q = lst.elts[1]
+        if not (isinstance(q, ast.Tuple) and len(q.elts) == 2):
+            return None
+        out["rff"] = kw(q.elts[0])
+        out["rfr"] = "VAR"
+        out["rrf"] = "VAR"
+        out["rrr"] = "NULL"
+        return out
+    # what curry builds: the returned list (outer level) and the list assigned in the loop (one level per argument)
+    outer = [shape(n.value) for n in ast.walk(cur) if isinstance(n, ast.Return) and isinstance(n.value, ast.List)]
+    inner = [shape(n.value) for n in ast.walk(cur) if isinstance(n, ast.Assign) and isinstance(n.value, ast.List)]
+    seed = [kw(n.value) for n in ast.walk(cur) if isinstance(n, ast.AnnAssign) and n.value is not None] + \
+           [kw(n.value) for n in ast.walk(cur) if isinstance(n, ast.Assign) and isinstance(n.value, ast.Constant)]
+    okb = len(outer) == 1 and len(inner) == 1 and outer[0] is not None and inner[0] is not None
+    ck.ob("R28f", f"{CURRY}::curry|shape", okb, "curry builds (A (Q . mod) env) with env = (C (Q . arg) env') per argument", site=f"{CURRY}:{cur.lineno}",
+          detail={"outer": outer, "inner": inner, "seed": seed})
+
+    def at_checks(nodes, var):
+        """{path: keyword} compared with != on at(var, path) inside `nodes`; other subjects are reported under '?<name>'"""
+        out = {}
+        for n in nodes:
+            for c in ast.walk(n):
+                if isinstance(c, ast.Compare) and len(c.ops) == 1 and isinstance(c.ops[0], ast.NotEq) and isinstance(c.left, ast.Call) \
+                        and getattr(c.left.func, "id", "") == "at" and len(c.left.args) == 2 and isinstance(c.left.args[1], ast.Constant):
+                    subj = ast.unparse(c.left.args[0])
+                    key_ = c.left.args[1].value if subj == var else f"?{subj}:{c.left.args[1].value}"
+                    out[key_] = kw(c.comparators[0])
+        return out
+
+    def at_takes(nodes, var):
+        return sorted(c.args[1].value for n in nodes for c in ast.walk(n) if isinstance(c, ast.Call) and getattr(c.func, "id", "") == "at"
+                      and len(c.args) == 2 and isinstance(c.args[1], ast.Constant) and ast.unparse(c.args[0]) == var
+                      and not any(isinstance(p_, ast.Compare) and p_.left is c for p_ in ast.walk(n)))
+    param = unc.args.args[1].arg if len(unc.args.args) > 1 else "?"
+    loops = [n for n in ast.walk(unc) if isinstance(n, ast.While)]
+    oku = okb and len(loops) == 1
+    det = {}
+    if oku:
+        lp = loops[0]
+        # the loop variable: the name compared in the loop test
+        lv = [x.id for x in ast.walk(lp.test) if isinstance(x, ast.Name) and x.id != "dialect"]
+        lv = lv[0] if lv else "?"
+        pre = [n for n in unc.body if n is not lp and not (isinstance(n, ast.Return))]
+        pre_checks = at_checks([n for n in pre if isinstance(n, ast.If)], param)
+        in_checks = at_checks(lp.body, lv)
+        want_outer = {k_: v for k_, v in outer[0].items() if v != "VAR"}
+        want_inner = {k_: v for k_, v in inner[0].items() if v != "VAR"}
+        # the loop advances to the rest of the level and collects the quoted argument
+        adv = [ast.unparse(n.value) for n in lp.body if isinstance(n, ast.Assign) and len(n.targets) == 1 and ast.unparse(n.targets[0]) == lv]
+        ends = ast.unparse(lp.test).replace("dialect.", "").replace(" ", "")
+        det = {"outer checks": pre_checks, "level checks": in_checks, "advance": adv, "loop test": ends, "loop variable": lv}
+        oku = pre_checks == want_outer and in_checks == want_inner and adv == [f"at({lv}, 'rrf')"] and ends == f"{lv}!=ONE" \
+            and "rfr" in at_takes(lp.body, lv) and "rfr" in at_takes(pre, param) and "rrf" in at_takes(pre, param)
+    ck.ob("R28f", f"{CURRY}::uncurry|mirrors curry", oku,
+          "uncurry tests f / rff / rrr of the program against (A, Q, NULL) and of EVERY level against (C, Q, NULL) - the level it is looking at, "
+          "not the whole program - takes rfr as the module / argument and continues with rrf until the environment reference 1",
+          site=f"{CURRY}:{unc.lineno}", detail=det)
